@@ -47,10 +47,15 @@ type FuncResult struct {
 	Assumed []string
 }
 
-func (p *Program) verifyFunction(name string, tier string, sink func(*Obligation)) *FuncResult {
+func (p *Program) verifyFunction(name string, tier string, prop string, sink func(*Obligation)) *FuncResult {
 	f := p.Funcs[name]
 	fc := p.Ctr.Funcs[name]
-	x := &Exec{p: p, root: f, rootName: name, fnc: fc, mode: "bv", sink: sink, maxPaths: 40000, tier: tier, assumed: map[string]bool{}}
+	if fc != nil && fc.Theory && len(fc.TheoryProps) > 0 && !hasProp(fc.TheoryProps, prop) {
+		cp := *fc
+		cp.Theory = false
+		fc = &cp
+	}
+	x := &Exec{p: p, root: f, rootName: name, fnc: fc, mode: "bv", sink: sink, maxPaths: 40000, tier: tier, prop: prop, assumed: map[string]bool{}}
 	if fc != nil && fc.Mode != "" {
 		x.mode = fc.Mode
 	}
@@ -58,6 +63,27 @@ func (p *Program) verifyFunction(name string, tier string, sink func(*Obligation
 		x.needTheory = true
 	}
 	x.sweep = p.inSweep(f)
+	if recv := f.Signature.Recv(); recv != nil && (fc == nil || (!fc.HasMod && len(fc.Preserves) == 0)) {
+		// a method that implements a contracted interface method inherits that contract's frame
+		for key, ic := range p.Ctr.Ifaces {
+			i := strings.LastIndex(key, ".")
+			if key[i+1:] != f.Name() || (!ic.HasMod && len(ic.Preserves) == 0) {
+				continue
+			}
+			it := p.lookupType(key[:i])
+			if it == nil || !types.Implements(recv.Type(), it.Underlying().(*types.Interface)) {
+				continue
+			}
+			nf := &FuncContract{Key: name}
+			if fc != nil {
+				cp := *fc
+				nf = &cp
+			}
+			nf.HasMod, nf.Modifies = ic.HasMod, ic.Modifies
+			nf.Preserves = ic.Preserves
+			x.fnc = nf
+		}
+	}
 	res := &FuncResult{Name: name}
 	if len(f.Blocks) == 0 {
 		return res
@@ -99,6 +125,16 @@ func (p *Program) verifyFunction(name string, tier string, sink func(*Obligation
 		entryFrame.env[fv] = binds[i]
 	}
 	s.frames = []*Frame{entryFrame}
+	// what the captured variables hold at entry is well-typed and already exists
+	for i, fv := range f.FreeVars {
+		et := fv.Type().(*types.Pointer).Elem()
+		switch et.Underlying().(type) {
+		case *types.Pointer, *types.Interface:
+			v := x.load(s, binds[i], et, false)
+			x.assumeLoaded(s, v, et)
+			x.assumeEntryAllocated(s, binds[i], v, et)
+		}
+	}
 	if name == "init" {
 		// the initialiser runs once: its guard variable is still false
 		g := x.heapSym(s, "G:init$guard", SBool)
@@ -201,7 +237,7 @@ func (p *Program) verifyFunction(name string, tier string, sink func(*Obligation
 	// vacuity guard: the entry assumptions must be satisfiable
 	x.coverEntry(s)
 	x.execFunction(s, f, args, binds, func(s2 *State, results []Val) {
-		x.atReturn(s2, f, fc, fieldC, args, results, lets)
+		x.atReturn(s2, f, fc, fieldC, args, binds, results, lets)
 	})
 	// the executor creates its own frame; hand the lets over
 	res.Capped = x.capped
@@ -257,7 +293,7 @@ func (x *Exec) fieldEnv(s *State, fieldC *FuncContract, f *ssa.Function, args []
 	return env
 }
 
-func (x *Exec) atReturn(s *State, f *ssa.Function, fc, fieldC *FuncContract, args []Val, results []Val, lets map[string]Val) {
+func (x *Exec) atReturn(s *State, f *ssa.Function, fc, fieldC *FuncContract, args []Val, binds []Val, results []Val, lets map[string]Val) {
 	if s.dead {
 		return
 	}
@@ -266,6 +302,13 @@ func (x *Exec) atReturn(s *State, f *ssa.Function, fc, fieldC *FuncContract, arg
 		measures: map[*ssa.BasicBlock][]T{}, inLoop: map[*ssa.BasicBlock]bool{}}
 	for i, prm := range f.Params {
 		fr.names[prm.Name()] = args[i]
+		fr.env[prm] = args[i]
+	}
+	for i, fv := range f.FreeVars {
+		if i < len(binds) {
+			fr.addrs[fv.Name()] = binds[i]
+			fr.env[fv] = binds[i]
+		}
 	}
 	s.frames = append(s.frames, fr)
 	defer func() { s.frames = s.frames[:len(s.frames)-1] }()
